@@ -98,7 +98,17 @@ def check_tags(ctx):
   for n in own_nodes(h.node):
     if isinstance(n, ast.Compare) and "tag" in unparse(n.left):
       for c in n.comparators:
-        if isinstance(c, (ast.Tuple, ast.List)):
+        if isinstance(c, ast.Attribute) and isinstance(c.value, ast.Name) and c.value.id in ("self", "cls") and h.cls is not None:
+          # a class-level constant tuple of tag names
+          for k in ix.mro(h.cls):
+            if c.attr in k.assigns:
+              c = k.assigns[c.attr]
+              break
+        elif isinstance(c, ast.Name):
+          r = ix.resolve(h.module, c, cls=h.cls, func=h)
+          if isinstance(r, tuple) and r[0] == "assign":
+            c = r[2]
+        if isinstance(c, (ast.Tuple, ast.List, ast.Set)):
           accepted |= {e.value for e in c.elts if isinstance(e, ast.Constant)}
         elif isinstance(c, ast.Constant):
           accepted.add(c.value)
